@@ -192,7 +192,7 @@ func (s *setupWorker) setup(ctx context.Context, m transport.Metadata) error {
 	// removal of the previous record has not reached this node yet): the new session
 	// replaces all of them
 	for _, metadata := range s.state.SessionMetadatas().All() {
-		if metadata.ClientID != session.ClientID() {
+		if metadata.ClientID != session.ClientID() || metadata.MountPoint != session.MountPoint() {
 			continue
 		}
 		err := s.state.SessionMetadatas().Delete(metadata.SessionID)
@@ -239,7 +239,7 @@ func (s *manager) shutdownSession(ctx context.Context, session *sessions.Session
 	for idx := range topics {
 		s.state.Subscriptions().Delete(session.ID(), topics[idx])
 	}
-	metadata, err := s.state.SessionMetadatas().ByClientID(session.ClientID())
+	metadata, err := s.state.SessionMetadatas().ByClientID(session.ClientID(), session.MountPoint())
 	if err == nil {
 		if metadata.SessionID != session.ID() {
 			// Session has reconnected on another peer.
